@@ -116,6 +116,8 @@ def main():
             for i in range(dim):
                 for j in range(dim):
                     A[i, j] += rng.randint(-2, 2) / 8
+            if k % 2 == 1:
+                A[:, 0] *= -1        # mirrored mesh: every element has a negative Jacobian (Mesh.Symmetry, clockwise-numbered imports)
             if abs(np.linalg.det(A)) > 0.4:
                 M.affine(mesh, A, [0.25, -0.5, 0.0])
         g = mesh.groupElem
